@@ -1,7 +1,22 @@
 #!/bin/sh
-# Offline setup: nothing to fetch. Warm the dependency build caches used by the checks.
+# Offline setup: nothing is fetched.  Warms the build caches the checks use (dependency builds for the MIR dump,
+# the native replay driver in dev and release profile).  Everything is rebuilt from /repo's working tree by the
+# checks themselves; this only saves the first check from paying for the dependency builds.
 set -e
 cd "$(dirname "$0")"
+export CARGO_NET_OFFLINE=true
 mkdir -p .cache evidence out
-python3-vt -c "import z3; print('z3', z3.get_version_string())"
-exit 0
+python3-vt - <<'PY'
+import sys
+sys.path.insert(0, '.')
+import z3
+print('z3', z3.get_version_string())
+from mirsym import loader, validate
+for feat in ('std', 'alloc'):
+    for c in ('adsb_deku', 'rsadsb_common'):
+        t, dt = loader.dump_mir(c, feat)
+        print('MIR dump %s [%s]: %d lines in %.1fs' % (c, feat, t.count('\n'), dt))
+print('replay (debug):', validate.build_replay('debug'))
+print('replay (release):', validate.build_replay('release'))
+PY
+echo setup done
